@@ -166,13 +166,14 @@ Record descriptor := mkDescriptor {
   ds_reloc : option nat          (* the relocation section handed to apply_section_relocations *)
 }.
 
-(* _decompress_dwarf_section (asserts -> AssertionError; struct.error and zlib.error
-   are both classes called "error") *)
+(* _decompress_dwarf_section (the three checks raise ELFCompressionError since commit 30d0c52 —
+   they were assert statements, void under python -O; struct.error and zlib.error are both
+   classes called "error") *)
 Definition decompress_dwarf_section (d : descriptor) : res descriptor :=
-  if negb (12 <? ds_size d) then Err (EPy "AssertionError")
+  if negb (12 <? ds_size d) then Err ECompress
   else
     let compression_type := firstn 4 (ds_stream d) in
-    if negb (bytes_eqb compression_type ZLIB_MAGIC) then Err (EPy "AssertionError")
+    if negb (bytes_eqb compression_type ZLIB_MAGIC) then Err ECompress
     else
       let szb := firstn 8 (skipn 4 (ds_stream d)) in
       if negb (length szb =? 8)%nat then Err (EPy "error")
@@ -183,7 +184,7 @@ Definition decompress_dwarf_section (d : descriptor) : res descriptor :=
         | None => Err (EPy "error")
         | Some (out, _) =>
             let size := zlen out in
-            if negb (uncompressed_size =? size) then Err (EPy "AssertionError")
+            if negb (uncompressed_size =? size) then Err ECompress
             else Ok (mkDescriptor (ds_name d) (ds_global_offset d) out size (ds_address d) (ds_reloc d))
         end.
 
